@@ -384,3 +384,8 @@ def register_adapter_info(reg):
                      result=TRef("Info"), requires=pre, ensures=lambda ctx, r: fwd_post(ctx, r), modifies=MODS, raises=R))
     reg.add(Contract(f"{AD}.TimeDelayAdapter.get_info", self_cls="TimeDelayAdapter", props=["C07.4", "C13.2"], params={"info": TRef("Info")},
                      result=TRef("Info"), requires=pre, ensures=lambda ctx, r: fwd_post(ctx, r, True), modifies=MODS, raises=R))
+
+
+BOUNDED = {"C07": [{"name": "metadata-products", "script": "replay/drivers/bnd_info.py", "args": ["--json"], "timeout": 600}]}
+REPLAY = {"finam.data.tools.info.Info.copy_with": "bnd_info.py", "finam.data.tools.info.Info.accepts": "bnd_info.py",
+          "finam.sdk.input.Input.exchange_info": "bnd_info.py", "finam.sdk.output.Output.get_info": "bnd_info.py"}
